@@ -245,7 +245,8 @@ CmtPieces(c) ==
 R(cfg, c, prev, imps) ==
   CASE c.k = "tok" ->
          IF c.t = "pkg" THEN LET r == Reg(cfg, imps, c.v) IN <<<<[c |-> "pk", s |-> r[2], p |-> c.v]>>, r[1]>>
-         ELSE IF c.t = "kw" /\ c.v = "default" THEN <<<<T("default"), T(":")>>, imps>>
+         \* tokens.go: keyword, operator, delimiter and layout tokens share one branch, which appends the colon to "default"
+         ELSE IF c.t \in {"kw", "op"} /\ c.v = "default" THEN <<<<T("default"), T(":")>>, imps>>
          ELSE IF c.t = "layout" THEN <<<<NL>>, imps>>
          ELSE IF c.v = "" THEN <<<<>>, imps>>
          ELSE <<<<T(c.v)>>, imps>>
